@@ -683,6 +683,8 @@ class C08(core.Check):
                 reqs.append(
                     f"c08.vmid {fv(p1)} {fv(p2)} {fv(cstar)} {fv(au)} {fv(g)} {_vec(impl['third'])} {core.rat(EPS_VALID)}"
                 )
+                # ArcEdgeBase.is_valid of the model for the implementation's third point
+                reqs.append(f"c08.valid {_vec(case['p1'])} {_vec(case['p2'])} {_vec(impl['third'])}")
             return reqs
         if kind in ("origin", "origin_adj"):
             reqs = [
@@ -698,6 +700,7 @@ class C08(core.Check):
                 reqs.append(
                     f"c08.vmid {fv(p1)} {fv(p2)} {fv(C)} {fv(nrm)} {fv(g)} {_vec(impl['third'])} {core.rat(EPS_VALID)}"
                 )
+                reqs.append(f"c08.valid {_vec(case['p1'])} {_vec(case['p2'])} {_vec(impl['third'])}")
             return reqs
         if kind in ("arc3", "arc3_beyond", "arc3_bad"):
             return [f"c08.arc3 {_vec(case['p1'])} {_vec(case['pb'])} {_vec(case['p2'])}"]
@@ -787,6 +790,8 @@ class C08(core.Check):
                 return f"written point: implementation {impl['third']}, model {m} (diff {d:.3g})"
             if len(model) > 1 and model[1] != "ok":
                 return f"validator on the implementation's point: {model[1]}"
+            if len(model) > 2 and model[2] in ("0", "1") and (model[2] == "1") != bool(impl["valid"]):
+                return f"ArcEdgeBase.is_valid: implementation {impl['valid']}, model {model[2]} (collinearity measure chord x rise vs TOL)"
             return None
         if kind in ("arc3", "arc3_beyond"):
             if ans[0] != "ok":
